@@ -1,4 +1,5 @@
 """C11 - Image iteration matches frame-by-frame rendering and leaks nothing."""
+from .render_data import *
 from .render_iterm2 import *
 
 TRUSTED = ["typestate model of byte streams / PIL images: open() and io.BytesIO() create a stream, `with` / close() closes it; PIL.Image.frombytes creates an image",
